@@ -279,7 +279,9 @@ type sourceErrChecker struct {
 
 func (s *sourceErrChecker) Read(p []byte) (int, error) {
 	n, err := s.r.Read(p)
-	if err != nil && !errors.Is(err, io.EOF) && s.srcErr == nil {
+	// only io.EOF itself is the end of the data: a failure of the source
+	// whose error wraps io.EOF ("connection lost: EOF") is a failure
+	if err != nil && err != io.EOF && s.srcErr == nil {
 		s.srcErr = err
 	}
 	return n, err
